@@ -58,10 +58,41 @@ def _hook_site(ctx, fi, hook):
     return cs[0], cs[0].func.value.id
 
 
+def recorded_before_next_hook(ctx, rep, R):
+    """a layer whose setUp returned is recorded before the next user hook is attempted: if that
+    one raises, every layer that is up must be known to the final tear-down (also C16.R5)"""
+    fi = ctx.model.func('runner.setup_layer')
+    call, L = _hook_site(ctx, fi, 'setUp')
+    if call is None:
+        return
+    ps = params(fi)
+    g = ctx.cfg(fi, layer_hook_oracle(ctx, ('setUp',)))
+    S = nodes_calling(g, lambda c: c is call)
+    marks_e = [n.id for n in g.nodes if n.kind == 'stmt' and isinstance(n.ast, ast.Assign) and any(
+        isinstance(t, ast.Subscript) and isinstance(t.value, ast.Name) and t.value.id in ps and
+        is_name(t.slice, L) for t in n.ast.targets)]
+    marks_e += nodes_calling(g, lambda c: isinstance(c.func, ast.Attribute) and
+                             c.func.attr in ('setdefault', '__setitem__', 'add') and
+                             isinstance(c.func.value, ast.Name) and c.func.value.id in ps and
+                             c.args and is_name(c.args[0], L))
+    nxt_hooks = set(S) | set(nodes_calling(g, lambda c: call_name(c) == fi.name))
+    r_e = g.reach(S, avoid=set(marks_e), edge_ok=lambda s_, d_, k_: k_ != 'exc')
+    hit = sorted(h for h in nxt_hooks if h in r_e)
+    rep.check(not hit, R, 'a layer whose setUp returned is recorded before another layer\'s setUp '
+              'is attempted', 'after %s.setUp() returned, %s can run before the layer is recorded in the '
+              'bookkeeping map: if it raises, the layer that is already up is unknown to the run and is '
+              'never torn down' % (L, norm(g.node(hit[0]).ast)[:60] if hit else ''),
+              key='setup_layer:record-before-next', func=fi.qualname,
+              where=ctx.where(fi, g.node(hit[0]).ast if hit else call),
+              path=g.describe_path(g.path(S, hit[0], avoid=set(marks_e),
+                                          edge_ok=lambda s_, d_, k_: k_ != 'exc') or []) if hit else None)
+
+
 def r2_setup_layer(ctx, rep, R='C01.R2'):
     rep.rule(R, 'setup_layer: setUp only while the layer is not marked set up, after all its bases '
              'were set up recursively; the layer is marked on every normal path after setUp and '
-             'never on a path where setUp raised')
+             'never on a path where setUp raised; a layer whose setUp returned is recorded before any '
+             'further setUp is attempted (so that the final tear-down knows every layer that is up)')
     fi = ctx.model.func('runner.setup_layer')
     call, L = _hook_site(ctx, fi, 'setUp')
     if call is None:
@@ -71,6 +102,7 @@ def r2_setup_layer(ctx, rep, R='C01.R2'):
     ps = params(fi)
     g = ctx.cfg(fi, layer_hook_oracle(ctx, ('setUp',)))
     S = nodes_calling(g, lambda c: c is call)
+    recorded_before_next_hook(ctx, rep, R + 'e')
     # membership tests  L (not) in M
     mts = []
     for n in g.nodes:
